@@ -62,7 +62,15 @@ def _create_or_update_state(first_key: str, second_key: str, hash_: str) -> None
 
 
 def update_states_in_database(session: Session, task_signature: str) -> None:
-    """Update the state for each node of a task in the database."""
+    """Update the state for each node of a task in the database.
+
+    A dry-run only announces what would happen and records nothing, not even for tasks
+    which are persisted.
+
+    """
+    if session.config.get("dry_run", False):
+        return
+
     for name in node_and_neighbors(session.dag, task_signature):
         node = session.dag.nodes[name].get("task") or session.dag.nodes[name]["node"]
         hash_ = node.state()
